@@ -28,6 +28,12 @@ CHECKS = {
     "C12": ("fault_enumeration", "A catalogue of 18 hostile-but-well-formed client message classes (unknown device/property/element, vector kind mismatch, values the parser accepts but the element cannot convert, values the parser rejects, wrong/non-numeric/missing BLOB size, bad base64, no children, duplicate children, mixed valid+invalid children, device-kind messages from a client, enableBLOB for unknown device or from an unregistered sender, unregistered tags, odd getProperties) is enumerated round-robin x 5 target vector kinds x transport {real TCP handler, real TTY handler on the simulated thread pool, direct router call} and injected at a seeded position of a seeded session of valid traffic; afterwards: nothing escaped, only validly named elements changed (to the valid value), the sending connection is still registered/open and answers a valid getProperties, a valid write is applied, and a driver-side update reaches both the sender and an observing client.",
             "One hostile message per run in the quick tier (sequences in thorough); both readings of 'ignored as far as it cannot be applied' pass.",
             "deterministic simulation with message-level fault injection enumerated from a catalogue at every session position"),
+    "C18": ("fault_enumeration", "Seven fault kinds {EOF, reset, EOF inside a message, junk then EOF, exception in a driver Write handler while the victim's message is handled, silent peer death noticed on the next write, TTY stdin EOF} are enumerated round-robin and injected at every step index of seeded session scripts (2-4 raw TCP connections, optionally a library client and the TTY channel; handshakes, enableBLOB, writes, device text/BLOB updates) on the real TCP and TTY handlers; afterwards: the dead handler is in none of Router.clients, Router.blob_routing, ConnectionHandler.connections and its transport is closed, the router hands it nothing after unregistering it, every surviving connection received every device update exactly once (by unique emission stamp, respecting the BLOB policy in force at emission), the TCP server and (for TCP-side faults) the TTY handler still run, and a reconnecting peer gets default routing (no BLOB until it asks, then one).",
+            "Messages in flight to/from the dying connection may be lost; a silent death is only required to be cleaned up at quiescence after the next device message.",
+            "deterministic simulation with connection-level fault injection enumerated over fault kind x step index"),
+    "C19": ("exploration", "Seeded search over bursts of 1..5 updates routed in one loop iteration or across iterations to 1-3 real TCP handlers (transport high-water mark 0/1/64/64Ki so that drain() blocks and its completion order is seeded), to the real TTY handler on a simulated pool of 2..6 workers whose job effect and completion instants are seeded, and from the real client-side connection handler to a stub server; optionally one connection stalled for ever. Each connection's output must split into complete elements that equal the routed sequence (a prefix for the stalled one); routing a burst must not advance virtual time; all other connections must be complete at quiescence.",
+            "asyncio's FIFO ready queue is kept; pool jobs on different workers are free to take effect in either order (superset of a real pool).",
+            "deterministic simulation of drain/pool completion orders with per-connection output vs routed order"),
     "C02": ("exploration", "Seeded search over (message sequence, spelling, receive world, threshold, stream partition), including exhaustive 1-, 2- and 3-cut sweeps of short streams, through the real Buffer and the real server/client/TTY read loops on a simulated network and thread pool; delivered messages compared structurally with what was sent, promptness checked after every piece, step watchdog for termination. Sampling, not proof.",
             "Trusts the harness message grammar/spelling writer and the structural comparison; kernel TCP segmentation is modelled as arbitrary cuts (a superset).",
             "deterministic simulation (seeded stream-partition schedules on a virtual-time loop, fault-free) with structural reference comparison"),
